@@ -1,3 +1,109 @@
-From Akita Require Import Lib.Base Lib.Fifo C10.Model.
-Theorem c10_tmp : True. Proof. exact I. Qed.
-Print Assumptions c10_tmp.
+(** C10 — direct connections deliver exactly once, intact, in order.  Property
+    theorems only.  [tick] is the model of [middleware.Tick] ([Lib/Conn.v]); [step] /
+    [final] / [log] run arbitrary schedules of sends, retrievals and ticks (Model.v). *)
+From Akita Require Import Lib.Base Lib.Fifo Lib.Port Lib.Conn C10.Model C10.Proofs.
+
+(** One tick, any number of ports, any buffer contents and capacities: the tick is a
+    sequence of moves (source port i, destination port j, message m) such that
+    - the delivery log is that sequence;
+    - every move delivers to the port whose name is the message's Dst;
+    - for every port k: its incoming buffer grew by exactly the messages moved to k, in
+      order, and its outgoing buffer lost exactly the messages moved from k, in order,
+      from the head (head-of-line: a blocked head blocks what is behind it);
+    nothing is altered, lost or duplicated; buffers of uninvolved ports are untouched. *)
+Theorem c10_tick_transfer : forall c pr c' cb dl, tick c = TickOk pr c' cb dl ->
+  exists L : list lmove, dl = dl_of L /\
+    (forall i j m, In (i, j, m) L ->
+       exists p, nth_error (c_ports c) j = Some p /\ p_name p = m_dst m) /\
+    forall k p, nth_error (c_ports c) k = Some p -> exists p', nth_error (c_ports c') k = Some p' /\
+      p_name p' = p_name p /\ b_cap (p_in p') = b_cap (p_in p) /\ b_cap (p_out p') = b_cap (p_out p) /\
+      content (p_in p') = content (p_in p) ++ map Some (to_k k L) /\
+      content (p_out p) = map Some (from_k k L) ++ content (p_out p').
+Proof.
+  intros c pr c' cb dl H. destruct (tick_moves _ _ _ _ _ H) as (L & HL & ->).
+  exists L. split; [reflexivity|]. split; [intros i j m Hin; eapply moves_right_port; eauto|].
+  destruct (moves_law _ _ _ HL) as (_ & _ & Hlaw). exact Hlaw.
+Qed.
+Print Assumptions c10_tick_transfer.
+
+(** Progress: when a tick returns, no plugged port is left with a head that could be
+    delivered (its destination has room) — a deliverable head is delivered in that very
+    tick; backpressure is the only reason a message stays.  The round-robin cursor
+    advances by one modulo the number of ports. *)
+Theorem c10_progress : forall c pr c' cb dl, tick c = TickOk pr c' cb dl ->
+  (forall k, deliv (c_ports c') k = false) /\
+  c_next c' = ((c_next c + 1) mod length (c_ports c))%nat /\
+  length (c_ports c') = length (c_ports c).
+Proof. exact tick_progress. Qed.
+Print Assumptions c10_progress.
+
+(** Every schedule (any interleaving of owners sending when CanSend allows, owners
+    retrieving — or stalling —, and connection ticks), from any state: the log of
+    deliveries can be labelled with source ports so that for every port k, as ORDERED
+    lists of unmodified messages,
+       stored(out k) ++ sent by k's owner   =  moved away from k ++ still stored(out k)
+       stored(in k)  ++ moved to k          =  retrieved by k's owner ++ still stored(in k)
+    and every move went to the port named by Dst.  Hence each accepted message is
+    delivered at most once, exactly once unless still buffered, unmodified, to its
+    destination only; per source port the deliveries are a prefix of the sends in send
+    order; per destination the retrievals are a prefix of the deliveries; a full receiver
+    only delays. *)
+Theorem c10_conservation_order : forall (h : list action) (c : conn),
+  exists L : list lmove, deliv_log c h = dl_of L /\
+    (forall i j m, In (i, j, m) L -> exists p, nth_error (c_ports c) j = Some p /\ p_name p = m_dst m) /\
+    forall k p, nth_error (c_ports c) k = Some p -> exists p', nth_error (c_ports (final c h)) k = Some p' /\
+      p_name p' = p_name p /\
+      content (p_out p) ++ log (sent_k k) c h = map Some (from_k k L) ++ content (p_out p') /\
+      content (p_in p) ++ map Some (to_k k L) = log (got_k k) c h ++ content (p_in p').
+Proof. intros h c. exact (history_law h c). Qed.
+Print Assumptions c10_conservation_order.
+
+(** The same from a freshly built connection (all buffers empty): per-source FIFO and
+    per-destination FIFO read off directly. *)
+Theorem c10_per_source_fifo : forall caps (h : list action),
+  exists L : list lmove, deliv_log (new_conn caps) h = dl_of L /\
+    forall k p', nth_error (c_ports (final (new_conn caps) h)) k = Some p' ->
+      log (sent_k k) (new_conn caps) h = map Some (from_k k L) ++ content (p_out p') /\
+      map Some (to_k k L) = log (got_k k) (new_conn caps) h ++ content (p_in p').
+Proof.
+  intros caps h. destruct (history_law h (new_conn caps)) as (L & Hd & _ & Hl).
+  exists L. split; [exact Hd|]. intros k p' Hk'.
+  destruct (nth_error (c_ports (new_conn caps)) k) as [p|] eqn:Ek.
+  - destruct (Hl k p Ek) as (p'' & Hk'' & _ & Ho & Hi). rewrite Hk' in Hk''. injection Hk'' as <-.
+    assert (Hempty : content (p_out p) = [] /\ content (p_in p) = []).
+    { unfold new_conn, mk_ports in Ek. cbn [c_ports] in Ek. rewrite nth_error_map in Ek.
+      destruct (nth_error (combine (seq 0 (length caps)) caps) k); [|discriminate].
+      injection Ek as <-. split; reflexivity. }
+    destruct Hempty as [E1 E2]. rewrite E1 in Ho. rewrite E2 in Hi. cbn [app] in *. split; assumption.
+  - exfalso. (* the port list never grows *)
+    assert (Hlen : forall hh cc, length (c_ports (final cc hh)) = length (c_ports cc)).
+    { induction hh as [|a r IH]; intro cc; cbn [final]; [reflexivity|].
+      destruct (snd (step cc a)) as [c1|] eqn:Es; [|reflexivity]. rewrite IH.
+      destruct (step_law cc a c1 Es) as (L1 & _ & _ & Hl1).
+      destruct (Nat.lt_trichotomy (length (c_ports c1)) (length (c_ports cc))) as [Hlt|[He|Hgt]]; [|exact He|].
+      - destruct (nth_error (c_ports cc) (length (c_ports c1))) as [q|] eqn:Eq.
+        + destruct (Hl1 _ q Eq) as (q' & Hq' & _). apply nth_error_lt in Hq'. lia.
+        + apply nth_error_None in Eq. lia.
+      - clear - Es Hgt. destruct a as [i m|i| |]; cbn [step] in Es.
+        + destruct (nth_error (c_ports cc) i) as [p|]; [|discriminate].
+          destruct (can_send p); [destruct (send (Some m) p); try discriminate|];
+            injection Es as <-; cbn [c_ports] in Hgt; rewrite ?set_nth_length in Hgt; lia.
+        + destruct (nth_error (c_ports cc) i) as [p|]; [|discriminate].
+          destruct (retrieve_incoming p); try discriminate.
+          injection Es as <-; cbn [c_ports] in Hgt; rewrite ?set_nth_length in Hgt; lia.
+        + destruct (tick cc) as [pr c2 cb dl|] eqn:Et; [|discriminate]. injection Es as <-.
+          destruct (tick_progress _ _ _ _ _ Et) as (_ & _ & Hl). lia.
+        + injection Es as <-. lia. }
+    apply nth_error_None in Ek. apply nth_error_lt in Hk'. rewrite Hlen in Hk'. lia.
+Qed.
+Print Assumptions c10_per_source_fifo.
+
+(** Non-vacuity: three ports, port 1 sends to ports 2 and 3; port 2 is full (capacity 1)
+    so the second message for it blocks the one for port 3 behind it (head of line)
+    until the receiver drains. *)
+Example c10_nonvacuous :
+  let m1 := mk_msg 1 1 2 10 in let m2 := mk_msg 2 1 2 20 in let m3 := mk_msg 3 1 3 30 in
+  let h := [ASend 0 m1; ASend 0 m2; ASend 0 m3; ATick; ATick; ARetrieve 1; ATick] in
+  deliv_log (new_conn [(1, 4); (1, 1); (1, 1)]%Z) h = [(1, m1); (1, m2); (2, m3)]%nat /\
+  exists pr c' cb dl, tick (new_conn [(1, 1); (1, 1)]%Z) = TickOk pr c' cb dl.
+Proof. split; [vm_compute; reflexivity|]. vm_compute. eauto. Qed.
